@@ -4,6 +4,7 @@
 import Petl.Proto
 import Petl.Sort
 import Petl.Join
+import Petl.HashJoin
 namespace Petl
 
 def opCmp : P String := do
@@ -93,6 +94,69 @@ def opCrossJoin : P String := do
   let ts ← pList pTable
   pure (showOut (crossJoinView missing ts))
 
+/-- hashjoin <kind> <missing> <lprefix|-> <rprefix|-> <lkey> <rkey> <L> <R> -/
+def opHashJoin : P String := do
+  let kind ← pJoinKind
+  let missing ← pVal
+  let lp ← pOptText
+  let rp ← pOptText
+  let lkey ← pKey
+  let rkey ← pKey
+  let l ← pTable
+  let r ← pTable
+  match lkey, rkey with
+  | some lk, some rk => pure (showOut (hashJoinView kind missing lp rp lk rk l r))
+  | _, _ => P.fail "hashjoin needs explicit keys"
+
+def rawKey (idx : List Nat) (r : Row) : Val :=
+  match idx with
+  | [i] => getCell r i
+  | _ => .seq false (idx.map (getCell r))
+
+/-- lookup <one> <strict> <key> <value|KN> <table>: the dictionary as rows (key, value) in insertion order -/
+def opLookup : P String := do
+  let one ← pBool
+  let strict ← pBool
+  let key ← pKey
+  let value ← pKey
+  let t ← pTable
+  let hdr := t.headD []
+  let rows := t.drop 1
+  match key with
+  | none => P.fail "lookup needs a key"
+  | some k =>
+    match asindices hdr k with
+    | .error e => pure ("ERR " ++ e.code)
+    | .ok kidx =>
+      if kidx.isEmpty then pure "ERR Assertion" else
+      let vidx? : Except Err (Option (List Nat)) :=
+        match value with
+        | none => .ok none
+        | some v => (asindices hdr v).map some
+      match vidx? with
+      | .error e => pure ("ERR " ++ e.code)
+      | .ok vidx =>
+        if vidx == some [] then pure "ERR Assertion" else
+        let need := kidx ++ (match vidx with | some v => v | none => List.range hdr.length)
+        -- raw itemgetter / rowgetter: IndexError on a row too short for a needed index;
+        -- rows before it are processed first (a strict duplicate among them wins)
+        let firstShort := rows.findIdx? (fun r => need.any (fun i => r.length ≤ i))
+        let usable := match firstShort with | some j => rows.take j | none => rows
+        let getv : Row → Val := match vidx with
+          | none => fun r => .seq false ((List.range hdr.length).map (getCell r))
+          | some v => rawKey v
+        if one then
+          let chk (idx : List Nat) (f : Row → Val) : Row → Except Err Val :=
+            fun r => if idx.any (fun i => r.length ≤ i) then .error .index else .ok (f r)
+          let vneed := match vidx with | some v => v | none => List.range hdr.length
+          match buildLookupOneE (chk kidx (rawKey kidx)) (chk vneed getv) strict rows [] with
+          | .error e => pure ("ERR " ++ e.code)
+          | .ok d => pure (showTable (d.map (fun e => [e.1, e.2])))
+        else
+          if firstShort.isSome then pure "ERR Index" else
+          let d := buildLookup (rawKey kidx) getv usable
+          pure (showTable (d.map (fun e => [e.1, Val.seq true e.2])))
+
 def dispatch (op : String) : Option (P String) :=
   match op with
   | "cmp" => some opCmp
@@ -101,6 +165,8 @@ def dispatch (op : String) : Option (P String) :=
   | "issorted" => some opIsSorted
   | "join" => some opJoin
   | "crossjoin" => some opCrossJoin
+  | "hashjoin" => some opHashJoin
+  | "lookup" => some opLookup
   | _ => none
 
 end Petl
